@@ -48,8 +48,15 @@ class Codecs:
             self.units[u.name] = u
         for u in self.units.values():
             interpret_unit(prog, u)
-        self.header = header_unit(prog)
+        try:
+            self.header = header_unit(prog)
+            self.header.error = None
+        except AnalysisError as e:
+            tdf = prog.need_cls("Tdf", "basictdf")
+            self.header = Unit(name="TdfHeader", cls=tdf, writer=prog.need_method(tdf, "new"), reader=prog.need_method(tdf, "__enter__"), wterms=[], rterms=[])
+            self.header.error = str(e)
         self.pairs = parallel_pairs(prog)
+        self.bad_units = {}
         self.results = {}  # unit name -> list of (ok, sub, wnode, rnode, text)
         self.unifiers = {}
         self.assumptions = []
@@ -68,6 +75,8 @@ class Codecs:
     def unify(self, u: Unit):
         if u.name in self.unifiers:
             return self.unifiers[u.name]
+        if getattr(u, "error", None):
+            raise AnalysisError(u.error)
         res = []
 
         def emit(ok, sub, wn, rn, text):
@@ -83,10 +92,20 @@ class Codecs:
         return un
 
     def all_units(self, with_header=True):
-        out = list(self.units.values())
-        if with_header:
+        out = [u for u in self.units.values() if not getattr(u, "error", None)]
+        if with_header and not getattr(self.header, "error", None):
             out.append(self.header)
         return out
+
+    def flag_errors(self, rep):
+        """Units whose codec methods contain a statement the interpreter does not model: the rules skip them and the
+        run ends undecided (exit 2) unless another rule reports a definite violation."""
+        for u in list(self.units.values()) + [self.header]:
+            e = getattr(u, "error", None)
+            if e and e not in rep.undecided:
+                rep.undecided.append(e)
+        for name in [n for n, u in self.units.items() if getattr(u, "error", None)]:
+            self.bad_units[name] = self.units.pop(name)
 
 
 def writer_attr_reads(prog: Program, u: Unit):
